@@ -26,10 +26,11 @@ type Outcome struct {
 
 // Crash describes a worker process that ended (or was ended) while executing a case.
 type Crash struct {
-	Stderr     string
-	Exit       string
-	Hung       bool    // ended by the wall-clock watchdog (never a verdict by itself)
-	CPUSeconds float64 // CPU time the process burnt on this case (a load-independent clock)
+	Stderr      string
+	Exit        string
+	Hung        bool    // ended by the wall-clock watchdog (never a verdict by itself)
+	CPUSeconds  float64 // CPU time the process burnt on this case (a load-independent clock)
+	OutOfMemory bool    // ended by the pool because its resident memory exceeded MaxRSS
 }
 
 // Pool runs cases in worker processes.
@@ -41,6 +42,14 @@ type Pool struct {
 	MemLimit    string        // GOMEMLIMIT for workers
 	ExtraEnv    []string
 	Progress    func(done, total int)
+	MaxRSS      int64 // hard bound on a worker's resident memory in bytes (default 3 GiB)
+}
+
+func (p *Pool) maxRSS() int64 {
+	if p.MaxRSS > 0 {
+		return p.MaxRSS
+	}
+	return 3 << 30
 }
 
 func NewPool(w *Worker) *Pool {
@@ -153,6 +162,7 @@ func (p *Pool) runProcess(cases []*proto.Case, outs []*Outcome) int {
 	var beganAt time.Time
 	var cpuAtBegin float64
 	hung := false
+	memKilled := false
 	stop := make(chan struct{})
 	go func() { // watchdog
 		t := time.NewTicker(200 * time.Millisecond)
@@ -162,6 +172,11 @@ func (p *Pool) runProcess(cases []*proto.Case, outs []*Outcome) int {
 			case <-stop:
 				return
 			case <-t.C:
+				if rss := procRSS(pid); rss > p.maxRSS() && !memKilled {
+					// hard memory bound (GOMEMLIMIT is only a soft limit): the case is reported as a crash
+					memKilled = true
+					_ = cmd.Process.Kill()
+				}
 				mu.Lock()
 				if current >= 0 && !hung && time.Since(beganAt) > p.CaseTimeout {
 					hung = true
@@ -218,7 +233,10 @@ func (p *Pool) runProcess(cases []*proto.Case, outs []*Outcome) int {
 			total := float64(ru.Utime.Sec+ru.Stime.Sec) + float64(ru.Utime.Usec+ru.Stime.Usec)/1e6
 			lastCPU = total - cpuAtBegin
 		}
-		outs[settled].Crash = &Crash{Stderr: stderr.String(), Exit: exit, Hung: hung, CPUSeconds: lastCPU}
+		if memKilled {
+			exit = fmt.Sprintf("killed: resident memory exceeded the bound of %d MiB (%s)", p.maxRSS()>>20, exit)
+		}
+		outs[settled].Crash = &Crash{Stderr: stderr.String(), Exit: exit, Hung: hung, CPUSeconds: lastCPU, OutOfMemory: memKilled}
 		settled++
 	} else if settled < len(outs) && werr != nil && settled == 0 {
 		// died before the first BEGIN
@@ -226,6 +244,20 @@ func (p *Pool) runProcess(cases []*proto.Case, outs []*Outcome) int {
 		settled = 1
 	}
 	return settled
+}
+
+// procRSS returns the resident set size of a live process in bytes (0 if it cannot be read).
+func procRSS(pid int) int64 {
+	b, err := os.ReadFile(fmt.Sprintf("/proc/%d/statm", pid))
+	if err != nil {
+		return 0
+	}
+	f := strings.Fields(string(b))
+	if len(f) < 2 {
+		return 0
+	}
+	n, _ := strconv.ParseInt(f[1], 10, 64)
+	return n * int64(os.Getpagesize())
 }
 
 // procCPU returns user+system CPU seconds of a live process (0 if it cannot be read).
